@@ -239,6 +239,26 @@ func NewNNSDriver(mode string) *NNSDriver {
 			nnsOp{kind: "time", step: "exp"},
 			nnsOp{kind: "register", name: "aa.com", who: "U2", signer: s("U2")}, // take-over after expiry
 		)
+	case "C12m":
+		// a mid-level name that expires while its parent lives on: its records and those of its
+		// sub-names fall back to the parent token
+		d.pre = []string{"aa.com", "x.aa.com"} // aa.com is renewed by a year in Build
+		d.names = []string{"aa.com", "x.aa.com", "y.x.aa.com"}
+		u := s("U1")
+		add(
+			nnsOp{kind: "add", name: "x.aa.com", typ: rtTXT, data: "tx", signer: u},
+			nnsOp{kind: "add", name: "x.aa.com", typ: rtTXT, data: "tx2", signer: u},
+			nnsOp{kind: "add", name: "y.x.aa.com", typ: rtTXT, data: "ty", signer: u},
+			nnsOp{kind: "add", name: "aa.com", typ: rtTXT, data: "ta", signer: u},
+			nnsOp{kind: "set", name: "x.aa.com", typ: rtTXT, id: 0, data: "tz", signer: u},
+			nnsOp{kind: "del", name: "x.aa.com", typ: rtTXT, signer: u},
+			nnsOp{kind: "del", name: "y.x.aa.com", typ: rtTXT, signer: u},
+			nnsOp{kind: "add", name: "x.aa.com", typ: rtCNAME, data: "aa.com", signer: u},
+			nnsOp{kind: "time", step: "exp"},
+			nnsOp{kind: "register", name: "x.aa.com", who: "U2", signer: s("U2", "U1")},
+			nnsOp{kind: "register", name: "x.aa.com", who: "U1", signer: u},
+			nnsOp{kind: "add", name: "x.aa.com", typ: rtTXT, data: "t2", signer: s("U2")},
+		)
 	case "C12c":
 		// CNAME graphs over five registered names: chains of 0..4 links, a 2-cycle, a self-loop
 		d.pre = []string{"n0.com", "n1.com", "n2.com", "n3.com", "n4.com"}
@@ -276,6 +296,9 @@ func (d *NNSDriver) Build() *World {
 	u1 := []neotest.Signer{w.Acct("U1").S}
 	for _, n := range d.pre {
 		w.Invoke(nh, u1, "register", n, d.acc["U1"], "e@x.y", int64(3600), int64(600), regLifeS, int64(3600))
+	}
+	if d.Mode == "C12m" {
+		w.Invoke(nh, u1, "renew", "aa.com", int64(1))
 	}
 	if d.Mode == "C12r" {
 		for k := 1; k <= 15; k++ {
@@ -329,20 +352,21 @@ func (d *NNSDriver) Init(w *World) Model {
 		m.names[n] = r
 		m.supply++
 		m.bal[r.owner]++
-		m.soa[n] = r.exp - uint64(regLifeS)*1000
 		m.mail[n] = "e@x.y"
+		// the serial is deployment data too: read it back once from the SOA record itself
+		o := w.Read(w.Root, w.H, w.TS, w.Contracts["nns"].Hash, "getRecords", n, int64(rtSOA))
+		l, ok := o.Ret0().([]any)
+		if !ok || len(l) != 1 {
+			hpanic("SOA of pre-registered %s: %v %s", n, o.Stack, o.Fault)
+		}
+		b, _ := AsBytes(l[0])
+		var ser uint64
+		fmt.Sscan(strings.Fields(string(b))[2], &ser)
+		m.soa[n] = ser
 	}
 	if d.Mode == "C12r" {
 		for k := 1; k <= 15; k++ {
 			m.recs[rkey("bb.com", "bb.com", rtTXT)] = append(m.recs[rkey("bb.com", "bb.com", rtTXT)], recEntry{k - 1, fmt.Sprintf("n%02d", k)})
-		}
-		// the last addRecord refreshed the serial; read it back once from the SOA record itself
-		o := w.Read(w.Root, w.H, w.TS, w.Contracts["nns"].Hash, "getRecords", "bb.com", int64(rtSOA))
-		if l, ok := o.Ret0().([]any); ok && len(l) == 1 {
-			b, _ := AsBytes(l[0])
-			var ser uint64
-			fmt.Sscan(strings.Fields(string(b))[2], &ser)
-			m.soa["bb.com"] = ser
 		}
 	}
 	return m
@@ -419,7 +443,7 @@ func (d *NNSDriver) hexOf(sym string) string {
 // perOpBlock: in the record modes every call gets its own block one second later, so that
 // SOA serials (block time) tell mutations apart.
 func (d *NNSDriver) adv() (uint32, uint64) {
-	if d.Mode == "C12r" {
+	if d.Mode == "C12r" || d.Mode == "C12m" {
 		return 1, 1000
 	}
 	return 0, 0
